@@ -51,7 +51,13 @@ use crate::value_flags::PerSymbolFlags;
 use crate::value_flags::ValueFlags;
 use crate::verbose_timing_phase;
 use atomic_take::AtomicTake;
+#[cfg(feature = "verif")]
+use crate::verif::sync::ArrayQueue;
+#[cfg(not(feature = "verif"))]
 use crossbeam_queue::ArrayQueue;
+#[cfg(feature = "verif")]
+use crate::verif::sync::SegQueue;
+#[cfg(not(feature = "verif"))]
 use crossbeam_queue::SegQueue;
 use object::SectionIndex;
 use rayon::Scope;
@@ -205,11 +211,24 @@ fn resolve_symbols_and_select_archive_entries<'data, P: Platform>(
         per_symbol_flags: &atomic_per_symbol_flags,
     };
 
+    #[cfg(feature = "verif")]
+    let verif_region = crate::verif::sched::region_begin("resolve");
+    #[cfg(feature = "verif")]
+    for work_item in &initial_work {
+        crate::verif::sched::ticket_keyed("resolve", "initial", work_item.verif_key());
+    }
     rayon::in_place_scope(|scope| {
+        #[cfg(feature = "verif")]
+        crate::verif::sched::scope_wait("resolve");
         initial_work.into_par_iter().for_each(|work_item| {
+            #[cfg(feature = "verif")]
+            let _verif_task =
+                crate::verif::sched::task_begin_keyed("resolve", work_item.verif_key());
             process_object(work_item, &resources, scope);
         });
     });
+    #[cfg(feature = "verif")]
+    drop(verif_region);
 
     {
         verbose_timing_phase!("Drop definitions_per_group_and_file");
@@ -508,16 +527,24 @@ impl<'scope, 'data, P: Platform> ResolutionResources<'data, 'scope, P> {
 
         // Do a read before we call `take`. Reads are cheaper, so this is an optimisation that
         // reduces the need for exclusive access to the cache line.
+        #[cfg(feature = "verif")]
+        crate::verif::sched::point("take.is_taken", std::ptr::from_ref(atomic_take) as usize);
         if atomic_take.is_taken() {
             // The definitions have previously been taken indicating that this file has already been
             // processed, nothing more to do.
             return;
         }
 
+        #[cfg(feature = "verif")]
+        crate::verif::sched::point("take.take", std::ptr::from_ref(atomic_take) as usize);
         let Some(definitions_out) = atomic_take.take() else {
             // Another thread just beat us to it.
+            #[cfg(feature = "verif")]
+            crate::verif::sched::event("file_requested", u64::from(file_id.as_u32()), 0, 0);
             return;
         };
+        #[cfg(feature = "verif")]
+        crate::verif::sched::event("file_requested", u64::from(file_id.as_u32()), 1, 0);
 
         work_items_do(
             file_id,
@@ -525,7 +552,11 @@ impl<'scope, 'data, P: Platform> ResolutionResources<'data, 'scope, P> {
             self.symbol_db,
             self.outputs,
             |work_item| {
+                #[cfg(feature = "verif")]
+                let verif_ticket = crate::verif::sched::ticket("resolve", "object");
                 scope.spawn(|scope| {
+                    #[cfg(feature = "verif")]
+                    let _verif_task = crate::verif::sched::task_begin(verif_ticket);
                     process_object(work_item, self, scope);
                 });
             },
@@ -1558,4 +1589,12 @@ fn section_slot_is_copy() {
     fn assert_copy<T: Copy>(_v: T) {}
 
     assert_copy(SectionSlot::Discard);
+}
+
+#[cfg(feature = "verif")]
+impl LoadObjectSymbolsRequest<'_> {
+    /// Identifies this work item to the verification scheduler.
+    fn verif_key(&self) -> u64 {
+        (u64::from(self.file_id.as_u32()) << 32) | self.symbol_start_offset as u64
+    }
 }
